@@ -7,7 +7,7 @@ for f in sorted(glob.glob(os.path.join(root, "seeded", "*", "meta.json"))):
     m = json.load(open(f))
     ob = ""
     for l in m["check"]["lines"]:
-        g = re.search(r"obligation=\S+?/([^/\s]+/[^\s{]+)", l)
+        g = re.search(r"obligation=C\d\d/(.+?)(?:\{| no-failing-input-found|$)", l)
         if l.startswith("VIOLATION") and g:
             ob = g.group(1)
             break
